@@ -36,6 +36,15 @@ CHECKS = {
     'C13': (MC, 'exhaustive bounded exploration with prompt logs; solve -> write back -> solve histories',
             'Prompt arguments are compared with the attempt/read log; the second run on the written-back inputs must ask nothing and reproduce the outcome; never-read inputs are dropped and the outcome must not change.',
             'Trusted: attempt logging wrappers.', '5/C13'),
+    'C14': (EX, 'exhaustive enumeration of typed value alphabets and all text <= L over a 12-symbol alphabet through to_config -> write -> the real fill_pdfs() reader -> PDFFiller; every explored real return through the CLI',
+            'Every value written is read back through the same path the PDF filler uses and compared (numbers/booleans exactly, enumerations by member, text up to surrounding whitespace); tax_year and year-specific forms/templates checked on real returns.',
+            'Text equality up to strip() of the value and of each physical line. One known finding (comment-char continuation lines).', '5/C14'),
+    'C18': (EX, 'exhaustive check of all ~1800 (form instance, mapping) pairs of all years against field trees parsed from the bundled PDFs by a home-made reader (XFA + AcroForm)',
+            'Existence, line labels (speak text / NC field names with an explicit errata table), export values, length limits, duplicates, exclusive groups for every driving value, fileable forms have template and mappings.',
+            'Trusted: hv/pdfread.py (self-checked XFA vs AcroForm on all 39 templates), errata table in c18.py.', '5/C18'),
+    'C19': (EX, 'exhaustive enumeration of strings <= L over {( ) \\ \' " a space} through the real _create_fdf decoded by an independent PDF literal-string reader; every solved explored return through `solve --solution` + `fill-pdfs` with a stand-in pdftk',
+            'FDF decodes to exactly the mapped (name, text) list; the forms filled, their templates, once each, and the cat order equal an independent filing table; length/choice limits refuse at limit+1.',
+            'Trusted: c19.read_fdf, c19.FILING. Printable ASCII only.', '5/C19'),
 }
 
 NOT_YET = {}
